@@ -1,6 +1,8 @@
 package main
 
 import (
+	"math"
+	"go/token"
 	"fmt"
 	"go/types"
 	"strings"
@@ -23,6 +25,7 @@ func init() {
 			{ID: "C12.3", Doc: "target derivation", Floor: 4, Run: c12r3},
 			{ID: "C12.4", Doc: "serving and building items", Floor: 8, Run: c12r4},
 			{ID: "C12.6", Doc: "rejection codes reach the wire: Wrapper.Put hands back the validator's own error value, and the put handler sends a krpc.Error as it is", Floor: 3, Run: c12r6},
+			{ID: "C12.7", Doc: "the buffer that is signed / verified is not recycled while in use (shared with C08.11)", Floor: 1, Run: cPoolLifetime},
 			{ID: "C12.5", Doc: "client-side acceptance", Floor: 2, Run: c12r5},
 		},
 	})
@@ -509,6 +512,38 @@ func c12r5(w *World, rr *RuleRun) {
 		})
 		if nEff == 0 {
 			rr.ObligeTrivial(shortFuncName(cb), "the get callback keeps no state between replies", w.P.Pos(cb.Pos()), true, "")
+		}
+	}
+	// "among those the one with the highest sequence number": where the client keeps the best value
+	// by comparing sequence numbers with an accumulator, the accumulator starts below every possible
+	// sequence number (math.MinInt64) - a zero start would discard every item with a negative seq
+	getF := w.P.FuncOpt("exts/getput.Get")
+	seqF := w.P.Field("exts/getput", "GetResult", "Seq")
+	if getF != nil {
+		nCmp := 0
+		eachInstr([]*ssa.Function{getF}, func(_ *ssa.Function, ins ssa.Instruction) {
+			bo, ok := ins.(*ssa.BinOp)
+			if !ok || !(bo.Op == token.GEQ || bo.Op == token.GTR || bo.Op == token.LSS || bo.Op == token.LEQ) {
+				return
+			}
+			l, r := w.TS.Of(bo.X), w.TS.Of(bo.Y)
+			if !(isFieldTerm(l, seqF) && isFieldTerm(r, seqF)) {
+				return
+			}
+			nCmp++
+			// the accumulator: the operand that is a field of a local of Get which is also stored to
+			initOK := PrecededBy(ins, func(i2 ssa.Instruction) bool {
+				st, ok := i2.(*ssa.Store)
+				if !ok || fieldOfAddr(st.Addr) != seqF {
+					return false
+				}
+				c, isC := ConstInt(st.Val)
+				return isC && c == math.MinInt64
+			})
+			rr.At(w, ins, "the best-value accumulator starts at the lowest sequence number", initOK, "compares "+trunc(l.String(), 60)+" with "+trunc(r.String(), 60))
+		})
+		if nCmp == 0 {
+			rr.ObligeTrivial(shortFuncName(getF), "no sequence-number accumulator in Get", "-", true, "")
 		}
 	}
 }
